@@ -263,14 +263,31 @@ func judge(prop string, s HarnessSpec, r *HarnessResult, known []KnownFinding) *
 		v.incon = append(v.incon, "engine: "+r.Err)
 		return v
 	}
+	coverSat := map[string]bool{}
+	coverSeen := map[string]string{}
+	for _, o := range r.Obs {
+		if o.Class == "cover" {
+			if _, ok := coverSeen[o.ID]; !ok || o.Result != "unsat" {
+				if coverSeen[o.ID] != "sat" {
+					coverSeen[o.ID] = o.Result
+				}
+			}
+			if o.Result == "sat" {
+				coverSat[o.ID] = true
+				coverSeen[o.ID] = "sat"
+			}
+		}
+	}
+	for id, res := range coverSeen {
+		if coverSat[id] {
+			v.covers++
+		} else {
+			v.incon = append(v.incon, fmt.Sprintf("reachability witness %q is %s on every path that reaches it (vacuous harness?)", id, res))
+		}
+	}
 	for _, o := range r.Obs {
 		switch {
 		case o.Class == "cover":
-			if o.Result == "sat" {
-				v.covers++
-			} else {
-				v.incon = append(v.incon, fmt.Sprintf("reachability witness %q is %s (vacuous harness?)", o.ID, o.Result))
-			}
 		case o.Class == "batch":
 			if o.Result == "unsat" {
 				v.passed += r.NBatched
